@@ -12,7 +12,8 @@ from vlib import worldops
 ID = 'C19'
 LEVEL = 'exploration'
 BUDGET = {'quick': 1200, 'thorough': 5000}
-RULE = ('Each case has three parts. (a) TWIN WORLDS: a generated history (create / add / remove / delete / '
+RULE = ('Twin part: in half of the cases every reference attribute is read once BEFORE the shorthand is used, and after the shorthand (and the following frame) the world goes on changing through World calls (entities, processors added / replaced / removed, clear) and every ComponentReference / ProcessorReference attribute is read again: it answers what the World answers now, identically (same object). '
+        'Each case has three parts. (a) TWIN WORLDS: a generated history (create / add / remove / delete / '
         'delete_now / process / add_processor / remove_processor) is applied to two fresh worlds with mirrored '
         'component pairs, a Controller subclass carrying ComponentReference / ProcessorReference descriptors is '
         'attached to a generated entity (variants: attached controller, bare desper.controller(entity, world), '
@@ -146,12 +147,24 @@ def decode_op(t):
     return [kind, d[0], d[1], d[2]]
 
 
+def decode_op2(t):
+    sel, p = t
+    d = [(p >> (4 * i)) & 15 for i in range(3)]
+    kind = ('create', 'add', 'remove', 'delete_now', 'process', 'addproc', 'addproc', 'addproc', 'remproc', 'remproc',
+            'clear', 'delete')[sel % 12]
+    return [kind, d[0], d[1], d[2]]
+
+
 def strategy():
     op = st.tuples(st.integers(0, 11), worldops.packed(16 ** 3)).map(decode_op)
+    op2 = st.tuples(st.integers(0, 11), worldops.packed(16 ** 3)).map(decode_op2)
     twin = st.fixed_dictionaries({
         'ops': worldops.chunked(op, 24), 'ctl_entity': st.integers(0, 15), 'variant': st.integers(0, 2),
         'shorthand': st.integers(0, len(SHORTHANDS) - 1), 'type': st.integers(0, 7), 'after': st.integers(0, 3),
-        'valmode': st.integers(0, 2), 'prelife': st.integers(0, 2)})
+        'valmode': st.integers(0, 2), 'prelife': st.integers(0, 2),
+        # warm: every reference attribute is read once before the shorthand is used; ops2: what happens to the world
+        # AFTER the shorthand was used (then every reference attribute is read again)
+        'warm': st.integers(0, 1), 'ops2': worldops.chunked(op2, 8, chunk=4)})
     proto = st.fixed_dictionaries({
         'types': st.lists(st.integers(0, 5), min_size=1, max_size=5),
         'sources': st.lists(st.integers(0, 3), min_size=6, max_size=6),
@@ -207,6 +220,8 @@ def apply_history(side, ops):
             w.add_processor(PROC[b % len(PROC)](tag), priority=((c % 5) - 2) if c % 2 else None)
         elif kind == 'remproc':
             w.remove_processor(PROC[b % len(PROC)])
+        elif kind == 'clear':
+            w.clear()
 
 
 def observe(side):
@@ -295,6 +310,42 @@ def twin_part(spec, facts):
             for c in list(side.world.get_components(ent)):
                 side.world.remove_component(ent, type(c))
         facts['entity_emptied_before_use'] += 1
+    reader = user
+    if variant == 1:
+        reader = Ctl()          # (the plain Controller built by desper.controller() carries no descriptors)
+        reader.entity, reader.world = ent, A.world
+
+    def read_references(when):
+        for i, P_ in enumerate(PROC):
+            ra_ = call(lambda: getattr(reader, 'pref%d' % i))
+            rb_ = call(lambda: B.world.get_processor(P_))
+            if ra_[0] != rb_[0] or norm(ra_[1]) != norm(rb_[1]):
+                viol('shorthand_result_differs_from_the_world_call', shorthand='pref_get', when=when,
+                     type=P_.__name__, shorthand_result=repr(ra_), world_result=repr(rb_))
+            if ra_[0] == 'ok' and ra_[1] is not None and ra_[1] is not A.world.get_processor(P_):
+                viol('shorthand_result_differs_from_the_world_call', shorthand='pref_get', when=when,
+                     type=P_.__name__, detail='not the processor the world holds now')
+        for i, T_ in enumerate(COMP):
+            ra_ = call(lambda: getattr(reader, 'ref%d' % i))
+            rb_ = call(lambda: B.world.get_component(ent, T_))
+            if ra_[0] != rb_[0] or norm(ra_[1]) != norm(rb_[1]):
+                viol('shorthand_result_differs_from_the_world_call', shorthand='ref_get', when=when,
+                     type=T_.__name__, shorthand_result=repr(ra_), world_result=repr(rb_))
+            if ra_[0] == 'ok' and ra_[1] is not None and ra_[1] is not A.world.get_component(ent, T_):
+                viol('shorthand_result_differs_from_the_world_call', shorthand='ref_get', when=when,
+                     type=T_.__name__, detail='not the component the world holds now')
+
+    def call(fn):
+        try:
+            return ('ok', fn())
+        except AssertionError as exc:
+            return ('raised', 'AssertionError')
+        except Exception as exc:
+            return ('raised', type(exc).__name__)
+
+    if spec.get('warm'):
+        read_references('before the shorthand is used')
+        facts['references_read_before_the_shorthand'] += 1
     sh = SHORTHANDS[spec['shorthand']]
     if variant == 1 and 'ref' in sh:
         # the plain Controller built by desper.controller() carries no descriptors: use an unattached
@@ -314,14 +365,6 @@ def twin_part(spec, facts):
     if len(A.ids) >= 3 and (len(matches) >= 2 or not matches) and sh in (
             'remove_component', 'has_component', 'get_component', 'ref_get', 'ref_del'):
         facts['nontrivial_query'] += 1
-
-    def call(fn):
-        try:
-            return ('ok', fn())
-        except AssertionError as exc:
-            return ('raised', 'AssertionError')
-        except Exception as exc:
-            return ('raised', type(exc).__name__)
 
     is_ctl = isinstance(user, desper.Controller)
     # the value assigned by add_component / ref_set: a new instance, or the very instance the entity already
@@ -403,6 +446,18 @@ def twin_part(spec, facts):
     pa, pb = call(lambda: A.world.process(1)), call(lambda: B.world.process(1))
     if pa != pb or observe(A) != observe(B):
         viol('shorthand_effect_differs_after_the_next_frame', shorthand=sh, a=repr(pa), b=repr(pb))
+    # ... whatever the state of the world: the world goes on changing (not through the references), and every
+    # reference attribute still answers what the World answers NOW
+    if spec.get('ops2') and pa[0] == 'ok':
+        read_references('after the shorthand was used')
+        ra2 = call(lambda: apply_history(A, spec['ops2']))
+        rb2 = call(lambda: apply_history(B, spec['ops2']))
+        if ra2[0] != rb2[0] or observe(A) != observe(B):
+            viol('harness_twin_worlds_diverged_after_the_shorthand', a=repr(ra2), b=repr(rb2))
+        read_references('after the world changed again')
+        facts['references_read_again_after_the_world_changed'] += 1
+        if any(o[0] in ('addproc', 'remproc', 'clear') for o in spec['ops2']):
+            facts['processors_changed_between_two_reads'] += 1
 
 
 # ---- (b) prototypes -----------------------------------------------------------------------------------------
